@@ -875,6 +875,8 @@ class Analysis:
             if c.cls and c.cls[0] == 'external':
                 if c.cls[1] == 'depccg.lang' and c.cls[2] == 'get_global_language' and not n.args:
                     return V(FRESH, NO, consts=frozenset([self.lang]))
+                if c.cls[1] == 'depccg.types' and c.cls[2] == 'Token':        # Token(**token): a new dict
+                    return V(SHALLOW if anyobj.own != FRESH else FRESH, YES)
                 return self.external(f'{c.cls[1]}.{c.cls[2]}', c.cls[2], args, n, f)
             if c.cls and c.cls[0] == 'builtin':
                 return self.builtin(name, n, args, env, f, guards)
